@@ -379,7 +379,9 @@ class Rew(object):
 
     def let(self, value, to):
         if self.sym:
-            self.map[term_of(value)] = T.var(to) if isinstance(to, str) else term_of(to)
+            t = term_of(value)
+            if t.op not in ('const', 'var'):
+                self.map[t] = T.var(to) if isinstance(to, str) else term_of(to)
         return self
 
     def __call__(self, v):
@@ -511,7 +513,11 @@ class Flux(Obligation):
     def claims(self, cx):
         M0, g, P0, C0 = cx['M0'], cx['gamma'], cx['P0'], cx['C0']
         rho1, T1 = cx['rho1'], cx['T1']
+        # base generalisation, applied to every claim: P0, C0 and (FLD) the flux-limiter values of each node are free
         R0 = Rew(cx).let(P0, 'P0v').let(C0, 'C0v')
+        if self.fld:
+            for i in range(6):
+                R0.let(cx['Lambda'][i], 'Lam%d' % i).let(cx['R'][i], 'Rlim%d' % i)
         P0v, C0v = R0(P0), R0(C0)
         mom_up = M0 * M0 + 1 / g + P0v / 3
         en_up = M0 * (M0 * M0 / 2 + 1 / (g * (g - 1)) + 1 / g) + P0v * M0 * 4 / 3
@@ -534,25 +540,22 @@ class Flux(Obligation):
             nm = NODE_NAMES[i]
             rho, u, p, e, Tm, Tr = (cx[k][i] for k in ('Density', 'Speed', 'Pressure', 'SIE', 'Tm', 'Tr'))
             Pr, Er, Fr, Mi, K = (cx[k][i] for k in ('Pr', 'Er', 'Fr', 'Mach', 'K'))
-            cx.eq('mass flux at the %s node == M0' % nm, rho * u, M0)
+            # interior nodes: the node density (and, for the energy claims, the subtracted constant) generalised as well
+            Rn = R0 if i == 0 else (R5 if i == 5 else Rew(cx, R0).let(rho, 'r'))
+            okr = okP & pos(cx, Rn(rho))
+            cx.eq('mass flux at the %s node == M0' % nm, Rn(rho * u), M0, when=okr)
             cx.eq('total momentum flux (with radiation pressure) at the %s node == upstream value' % nm,
                   R0(rho * u * u + p + P0 * Pr), mom_up, when=okP)
-            cx.eq('ideal gas: p == rho T / gamma at the %s node' % nm, p * g, rho * Tm)
-            cx.eq('ideal gas: e == T / (gamma (gamma-1)) at the %s node' % nm, e * g * (g - 1), Tm)
-            cx.eq('local Mach number: Mach^2 T == u^2 at the %s node' % nm, Mi * Mi * Tm, u * u)
-            cx.eq('radiation temperature: Tr^4 == Er at the %s node' % nm, Tr * Tr * Tr * Tr, Er)
+            cx.eq('ideal gas: p == rho T / gamma at the %s node' % nm, Rn(p * g), Rn(rho * Tm), when=okr)
+            cx.eq('ideal gas: e == T / (gamma (gamma-1)) at the %s node' % nm, Rn(e * g * (g - 1)), Rn(Tm), when=okr)
+            cx.eq('local Mach number: Mach^2 T == u^2 at the %s node' % nm, Rn(Mi * Mi * Tm), Rn(u * u), when=okr)
+            cx.eq('radiation temperature: Tr^4 == Er at the %s node' % nm, Rn(Tr * Tr * Tr * Tr), Rn(Er), when=okr)
             if not self.fld:
-                cx.eq('Eddington closure: Pr == Er/3 at the %s node' % nm, Pr * 3, Er)
+                cx.eq('Eddington closure: Pr == Er/3 at the %s node' % nm, Rn(Pr * 3), Rn(Er), when=okr)
             flux = u * (rho * u * u / 2 + rho * e + p) + P0 * C0 * Fr
             # (a) what the code conserves by construction
-            if i == 0:
-                Ra = R0
-            elif i == 5:
-                Ra = R5                      # density := rho1, temperature := T1 (both proved above)
-            else:
-                Ra = Rew(cx, R0).let(rho, 'r').let(K, 'k')
+            Ra = Rn if i in (0, 5) else Rew(cx, Rn).let(K, 'k')
             kv = Ra(K)
-            okr = okP & pos(cx, Ra(rho))
             cx.eq('(a) energy flux at the %s node == C0 * (constant subtracted by dPdx there)' % nm,
                   Ra(flux), C0v * kv, when=okr)
             # (b) that constant is the upstream total energy flux
@@ -563,7 +566,7 @@ class Flux(Obligation):
                 cx.eq('(b) constant subtracted by dPdx at the %s node == upstream total energy flux (fsolve contract)' % nm,
                       (C0v * R5(K) - en_up) * rho1 * rho1, M0 * R0(cx['res_en']) if cx.symbolic else 0.0, when=okP,
                       scale=None if cx.symbolic else [en_up * rho1 * rho1])
-            # (c) the property, given (b)
+            # (c) the property, given (a) and (b)
             cx.eq('total energy flux (with radiation flux) at the %s node == upstream value' % nm,
                   Ra(flux), en_up, when=okr & near(cx, C0v * kv, en_up) & (near(cx, Ra(flux), C0v * kv) if i == 5 else True))
             if i in (0, 5):
@@ -571,9 +574,9 @@ class Flux(Obligation):
                 cx.eq('%s state in radiative equilibrium: radiation flux == (4/3) beta Er' % nm, Ra(Fr * C0 * 3),
                       Ra(4 * u * Er), when=okr)
             if i == 0:
-                cx.eq('upstream density == 1 (rho0 after scaling)', rho, 1)
-                cx.eq('upstream speed == M0 (M0 a0 after scaling)', u, M0)
-                cx.eq('upstream temperature == 1 (Tref after scaling)', Tm, 1)
+                cx.eq('upstream density == 1 (rho0 after scaling)', R0(rho), 1, when=okP)
+                cx.eq('upstream speed == M0 (M0 a0 after scaling)', R0(u), M0, when=okP)
+                cx.eq('upstream temperature == 1 (Tref after scaling)', R0(Tm), 1, when=okP)
             if i == 5:
                 cx.eq('downstream temperature == T1', R5(Tm), T1, when=okP)
                 cx.eq('coded M1 == speed1 / sqrt(T1), speed1 == M0 / rho1', cx['M1'] * cx.sqrt(T1) * rho1, M0)
